@@ -342,26 +342,7 @@ impl Check for C05 {
         cov.insert("states_note".into(), json!("states/transitions count complete streams (one per chunk size or schedule), each of hundreds of real calls"));
     }
     fn replay(&self, replay: &Value) -> Result<(bool, String), String> {
-        // re-run the whole family of the recorded configuration
-        let cfg = Cfg::from_json(&replay["cfg"])?;
-        let fams = c05_fams(Tier::Thorough);
-        let mut log = String::new();
-        let mut bad = false;
-        for (i, f) in fams.iter().enumerate() {
-            let hit = match f {
-                Fam::Sinc { l, os, interp, ratio } => cfg.kind.is_sinc() && *l == cfg.sinc_len && *os == cfg.oversampling && *interp == cfg.interp && *ratio == cfg.ratio,
-                Fam::Fast { degree, ratio } => cfg.kind.is_fast() && *degree == cfg.degree && *ratio == cfg.ratio,
-                Fam::Fft { rate_in, rate_out } => cfg.kind.is_fft() && *rate_in == cfg.rate_in && *rate_out == cfg.rate_out,
-            };
-            if hit {
-                let v = self.run_item(Tier::Thorough, i, None)?;
-                for f in v["found"].as_array().cloned().unwrap_or_default() {
-                    bad = true;
-                    log.push_str(&format!("    VIOLATES C05 [{}] {} {} | {}\n", f["sig"].as_str().unwrap_or(""), f["cfg"], f["point"].as_str().unwrap_or(""), f["detail"].as_str().unwrap_or("")));
-                }
-            }
-        }
-        Ok((bad, log))
+        crate::frame::replay_by_item(self, replay)
     }
     fn rule(&self, _tier: Tier) -> String {
         "per algorithm family and ratio: one reference stream (fixed-input, chunk 257) and every run of {FixedIn, FixedOut} x every chunk size of {1,2,3,5,8,13,L-1,L,L+1,2L+1,64,100,257} x (sinc) every 3-slot set_chunk_size schedule over the (size, calls) menu, on a fixed pseudo-random signal; FFT: every (type, chunk<=256, sub_chunks<=4) grouped by resolved block size, bit-identical within a group. Non-trivial = compared prefix longer than 64 frames".into()
@@ -622,21 +603,7 @@ impl Check for C07 {
         cov.insert("lasso_note".into(), json!("orbits_closed = configurations (x schedules) decided for every stream length; horizon_caps_hit = configurations whose orbit does not repeat (non-terminating 1/ratio), checked to the horizon only"));
     }
     fn replay(&self, replay: &Value) -> Result<(bool, String), String> {
-        let cfg = Cfg::from_json(&replay["cfg"])?;
-        let mut acc = C07Acc { states: 0, transitions: 0, closed: 0, caps: 0, found: vec![], outcomes: vec![], samples: vec![], worst_margin: 0.0 };
-        // the schedule is recorded in "point" as debug text; replay the three standard ones
-        let scheds: Vec<Schedule> = vec![vec![], vec![(1, 3), (cfg.chunk, 2)], vec![((cfg.chunk / 2).max(1), 1), (cfg.chunk, 1), (1, 5)]];
-        for s in scheds {
-            if !s.is_empty() && !cfg.kind.is_sinc() {
-                continue;
-            }
-            c07_one(&mut acc, &cfg, &s, 20000, None)?;
-        }
-        let mut log = String::new();
-        for f in &acc.found {
-            log.push_str(&format!("    VIOLATES C07 [{}] {} | {}\n", f["sig"].as_str().unwrap_or(""), f["point"].as_str().unwrap_or(""), f["detail"].as_str().unwrap_or("")));
-        }
-        Ok((!acc.found.is_empty(), log))
+        crate::frame::replay_by_item(self, replay)
     }
     fn rule(&self, _tier: Tier) -> String {
         "per configuration (type x ratio x chunk x filter, sinc also with two periodic set_chunk_size schedules; FFT: every rate pair x chunk x sub_chunks): follow P (or the schedule) on the real object until (control fingerprint, schedule phase) repeats; check |out - r*in| <= r*(L+1/r+3)+3 at every step and exact out*den == in*num over the cycle; FFT: 0 <= in*b - out*a < one block at every step, == 0 for FftFixedInOut, block-size formula".into()
